@@ -67,7 +67,7 @@ def abstract_asset_problem(H, k, T, with_rows, with_dispf, name):
 class PortfolioSetup(Contract):
     qualname = 'portfolio:Portfolio.setup_optim_problem'
     prefix = 'C07.asm'
-    properties = ('C07', 'C09', 'C01', 'C04', 'C17', 'C10', 'C08')
+    properties = ('C07', 'C09', 'C01', 'C04', 'C17', 'C10', 'C08', 'C15')
 
     def cases(self):
         out = [dict(assets=1, rows='1', dispf='0', costs_only=False),
@@ -75,7 +75,8 @@ class PortfolioSetup(Contract):
                dict(assets=2, rows='11', dispf='00', costs_only=False),
                dict(assets=2, rows='00', dispf='11', costs_only=False),
                dict(assets=3, rows='101', dispf='010', costs_only=False),
-               dict(assets=2, rows='10', dispf='01', costs_only=True)]
+               dict(assets=2, rows='10', dispf='01', costs_only=True),
+               dict(assets=2, rows='10', dispf='01', costs_only=False, fix='mask')]
         return out
 
     def harness(self, H, case):
@@ -100,6 +101,15 @@ class PortfolioSetup(Contract):
         prices = {'p': H.real_arr('price', T)}
         ctx = dict(self_obj=self_obj, g=g, Fs=Fs, names=names, node_names=node_names,
                    kwargs=dict(prices=prices, timegrid=None, costs_only=case['costs_only']))
+        if case.get('fix'):
+            fm = H.fun('fix_mask', z3.IntSort(), z3.BoolSort())
+            nx = H.int('len_fix_x')
+            fix = {'I': Arr(T, lambda k: fm(lift(k))), 'x': H.real_arr('fix_x', nx)}
+            ctx['kwargs']['fix_time_window'] = fix
+            ctx.update(fix=fix, fm=fm, nx=nx)
+            H.protect[id(fix)] = 'fix_time_window'
+            H.protect[id(fix['I'])] = 'fix_time_window[I]'
+            H.protect[id(fix['x'])] = 'fix_time_window[x]'
         # nodal block as returned by create_nodal_restr (its own contract): E entries, N rows
         E, N = H.int('nr_E'), H.int('nr_N')
         H.assume(z3.And(E >= 0, N >= 0))
@@ -125,6 +135,10 @@ class PortfolioSetup(Contract):
 
     def post(self, H, case, outcome, I, ctx):
         Fs = ctx['Fs']
+        if outcome[0] == 'raise' and case.get('fix'):
+            nv_ = sum(F['n'] for F in Fs)
+            yield ('C15.refuses_only_too_short_x', ctx['nx'] < nv_)
+            return
         if outcome[0] != 'return':
             yield ('C07.asm.no_raise', False if outcome[0] == 'raise' else Havoc(outcome[1]))
             return
@@ -152,9 +166,30 @@ class PortfolioSetup(Contract):
             if isinstance(x, Havoc):
                 yield ('C07.asm.vectors', x)
                 return
-        yield ('C07.asm.vectors', z3.And(lift(c.n) == nv, lift(l.n) == nv, lift(u.n) == nv, z3.ForAll([j], z3.Implies(jr, z3.And(
-            lift(c.f(j)) == which(j, lambda a, i: Fs[a]['c'].f(i)), lift(l.f(j)) == which(j, lambda a, i: Fs[a]['l'].f(i)),
-            lift(u.f(j)) == which(j, lambda a, i: Fs[a]['u'].f(i)))))))
+        if case.get('fix'):
+            # C15: a variable is pinned to the previous value only if one of its mapping rows lies on a step of the window; every
+            # other variable keeps the bounds its asset computed ("all other variables remain free")
+            roffs_ = [0]
+            for F in Fs:
+                roffs_.append(roffs_[-1] + F['R'])
+            q = z3.Int('q')
+
+            def in_window(jj):
+                alts = []
+                for a, F in enumerate(Fs):
+                    alts.append(z3.Exists([q], z3.And(q >= 0, q < F['R'], offs[a] + F['idx'](q) == jj, ctx['fm'](F['ts'](q)))))
+                return z3.Or(*alts)
+            l0 = lambda jj: which(jj, lambda a, i: Fs[a]['l'].f(i))
+            u0 = lambda jj: which(jj, lambda a, i: Fs[a]['u'].f(i))
+            xj = ctx['fix']['x'].f
+            yield ('C15.pin.only_window_variables_are_pinned_to_previous_values', z3.And(lift(l.n) == nv, lift(u.n) == nv, z3.ForAll([j], z3.Implies(jr, z3.Or(
+                z3.And(lift(l.f(j)) == l0(j), lift(u.f(j)) == u0(j)),
+                z3.And(in_window(j), lift(l.f(j)) == xj(j), lift(u.f(j)) == xj(j)))))))
+            yield ('C15.costs_untouched', z3.ForAll([j], z3.Implies(jr, lift(c.f(j)) == which(j, lambda a, i: Fs[a]['c'].f(i)))))
+        else:
+            yield ('C07.asm.vectors', z3.And(lift(c.n) == nv, lift(l.n) == nv, lift(u.n) == nv, z3.ForAll([j], z3.Implies(jr, z3.And(
+                lift(c.f(j)) == which(j, lambda a, i: Fs[a]['c'].f(i)), lift(l.f(j)) == which(j, lambda a, i: Fs[a]['l'].f(i)),
+                lift(u.f(j)) == which(j, lambda a, i: Fs[a]['u'].f(i)))))))
         # ---- mapping
         if isinstance(m, Havoc) or not isinstance(m, DF):
             yield ('C07.asm.index', m if isinstance(m, Havoc) else Havoc('mapping not a frame'))
@@ -273,6 +308,9 @@ def _pf_sample(self, case, rng):
 
 
 def _pf_native(self, case, P):
+    if case.get('fix'):
+        from pyvc import native as N_
+        raise N_.NotRealisable('fix_time_window is covered by the bounded scenario check_fix_window')
     import copy
     import random
     import numpy as np
